@@ -78,7 +78,26 @@ def ref_problems(lib, refs):
         rb = [r.get("digest", r.get("exc")) for r in b["renders"]]
         if a["steps"] != b["steps"] or ra != rb:
             k = next((i for i, (x, y) in enumerate(zip(ra, rb)) if x != y), 0)
-            hs_viol.append({"desc": d, "render": k, "files": diff_files(a["renders"][k], b["renders"][k])})
+            hs_viol.append({"desc": d, "render": k, "clause": "hash-seed-dependence",
+                            "files": diff_files(a["renders"][k], b["renders"][k])})
+            continue
+        # "independent of how often it is rendered": an identical render request repeated with
+        # no edit in between must give the identical artefact (checked on the solo run itself)
+        k = -1
+        prev = None
+        for st in d["steps"]:
+            if st["s"] in ("render", "cli_render"):
+                k += 1
+                if prev is not None and prev[0] == st and ra[k] != ra[prev[1]]:
+                    hs_viol.append({"desc": d, "render": k, "clause": "repeated-render-differs",
+                                    "files": diff_files(a["renders"][k], a["renders"][prev[1]])})
+                    break
+                prev = (st, k)
+            elif st["s"] == "to_code":
+                k += 1
+                prev = None
+            elif st["s"] not in ("touch",):
+                prev = None
     return unusable, hs_viol
 
 
@@ -268,6 +287,24 @@ def execute(plan_or_trace, lib_by_id, refs, rundir, rng=None, neutralise=None):
     return {"trace": trace, "violation": violation, "stats": stats, "digest": log.digest()}
 
 
+def execute_isolated(plan_or_trace, lib_by_id, refs, rundir, rng=None, neutralise=None):
+    """execute() in a forked child of this (pristine, post-import) worker: every run and every
+    minimisation candidate starts from the state of a fresh process, so nothing a run leaves
+    behind - known to the simulator or not - can influence another run or break replay."""
+    from . import seams
+
+    seams.install()
+    r = K.forked_call(_execute_child, plan_or_trace, lib_by_id, refs, rundir, rng, neutralise)
+    return r
+
+
+def _execute_child(plan_or_trace, lib_by_id, refs, rundir, rng, neutralise):
+    fn = channels().get(neutralise[1]) if neutralise else None
+    r = execute(plan_or_trace, lib_by_id, refs, rundir, rng=rng, neutralise=(neutralise[0], fn) if neutralise else None)
+    r["stats"]["pairs"] = [list(p) for p in r["stats"]["pairs"]]
+    return r
+
+
 def compare_render(s, i, refs, stats, rendered_by, log):
     k = s.nrender - 1
     res = s.results[-1]
@@ -346,7 +383,7 @@ def minimise(trace, clause, victim_desc, lib_by_id, refs, rundir):
         if sess is not None:
             t["sessions"] = sess
         try:
-            r = execute(t, lib_by_id, refs, rundir)
+            r = execute_isolated(t, lib_by_id, refs, rundir)
         except K.HarnessError:
             return False
         v = r["violation"]
@@ -364,7 +401,7 @@ def minimise(trace, clause, victim_desc, lib_by_id, refs, rundir):
         sess2 = [t["sessions"][u] for u in used]
         ev2 = [dict(e, session=remap[e["session"]]) if e["e"] == "step" else e for e in evs]
         t2 = dict(t, sessions=sess2, events=ev2)
-        r = execute(t2, lib_by_id, refs, rundir)
+        r = execute_isolated(t2, lib_by_id, refs, rundir)
         if r["violation"] and r["violation"]["clause"] == clause and r["violation"]["desc"] == victim_desc:
             t = t2
     # drop faults that are not needed
@@ -398,8 +435,9 @@ def replay(path):
         lib = [doc["desc"]]
         refs = build_references(lib, scratch)
         un, hv = ref_problems(lib, refs)
-        print(f"replay {path}: description {doc['desc']['id']} under hash seeds {REF_HASHSEEDS}: "
-              f"{'differs' if hv else 'identical'}")
+        hv = [h for h in hv if h["clause"] == doc["clause"]]
+        print(f"replay {path}: description {doc['desc']['id']} alone, hash seeds {REF_HASHSEEDS}, clause {doc['clause']}: "
+              f"{'reproduced' if hv else 'not reproduced'}")
         if hv:
             print(f"VIOLATION property={PROP} replay={path}")
             return K.EXIT_VIOLATION
@@ -407,7 +445,7 @@ def replay(path):
     lib = doc["descriptions"]
     lib_by_id = {d["id"]: d for d in lib}
     refs = build_references(lib, scratch)
-    r = execute(doc["trace"], lib_by_id, refs, os.path.join(scratch, "c17-replay"))
+    r = K.pool_map(_replay_task, [(doc["trace"], lib_by_id, refs, os.path.join(scratch, "c17-replay"))], nworkers=1, force_pool=True)[0]
     v = r["violation"]
     print(f"replay {path}: sessions {doc['trace']['sessions']}, {len(doc['trace']['events'])} events, expected {doc['clause']}")
     if v:
@@ -417,6 +455,18 @@ def replay(path):
         return K.EXIT_VIOLATION
     print("replay did not reproduce the violation on this tree")
     return K.EXIT_OK
+
+
+def _replay_task(task):
+    trace, lib_by_id, refs, rundir = task
+    return execute_isolated(trace, lib_by_id, refs, rundir)
+
+
+def _report_task(task):
+    """Minimisation runs inside a pool worker (a pristine post-import interpreter that forks
+    one child per candidate), never in the checker process itself."""
+    viols, hs_viol, lib_by_id, lib, refs, seed, scratch = task
+    return report(viols, hs_viol, lib_by_id, lib, refs, seed, scratch)
 
 
 # --------------------------------------------------------------------------
@@ -440,7 +490,7 @@ def _worker(task):
         plan = gen_plan(rng, fam_of, families, tier)
         rundir = os.path.join(base, "r")
         shutil.rmtree(rundir, ignore_errors=True)
-        r = execute(plan, lib_by_id, refs, rundir, rng=rng)
+        r = execute_isolated(plan, lib_by_id, refs, rundir, rng=rng)
         st = r["stats"]
         stats["runs"] += 1
         for k in ("renders", "steps", "clock_jumps", "month_cross", "year_cross"):
@@ -471,9 +521,11 @@ def main(argv):
     refs = build_references(lib, scratch)
     unusable, hs_viol = ref_problems(lib, refs)
     ref_s = timer.s()
-    usable = [d for d in lib if d["id"] not in unusable and not any(h["desc"]["id"] == d["id"] for h in hs_viol)]
-    if len(usable) < len(lib) * 0.6:
+    if len(unusable) > len(lib) * 0.4:
         raise K.HarnessError(f"too many unusable descriptions: {unusable}")
+    usable = [d for d in lib if d["id"] not in unusable and not any(h["desc"]["id"] == d["id"] for h in hs_viol)]
+    if len(usable) < 4:
+        usable = [d for d in lib if d["id"] not in unusable]
     lib_by_id = {d["id"]: d for d in usable}
     fam_of = {d["id"]: d["family"] for d in usable}
     nruns = {"quick": 320, "thorough": 40000}[tier]
@@ -500,8 +552,9 @@ def main(argv):
     nviol = sum(p["nviol"] for p in done)
     batch_digest = K.digest([p["digest"] for p in done])
 
-    exit_code, replays, known_lines = report(viols, hs_viol, lib_by_id, lib, refs, seed, scratch)
-    for ln in known_lines:
+    exit_code, replays, known_lines, out_lines = K.pool_map(
+        _report_task, [(viols, hs_viol, lib_by_id, lib, refs, seed, scratch)], nworkers=1, watchdog=3000, force_pool=True)[0]
+    for ln in out_lines + known_lines:
         print(ln)
     wall = timer.s()
     families = sorted(set(fam_of.values()))
@@ -557,16 +610,25 @@ def main(argv):
 
 def report(viols, hs_viol, lib_by_id, lib, refs, seed, scratch):
     known = K.load_known_findings(PROP)
+    out = []
     exit_code = K.EXIT_OK
     replays, known_hit, seen = [], {}, set()
     rundir = os.path.join(scratch, "c17-min")
+    solo_seen = set()
     for h in hs_viol:
-        doc = {"kind": "hashseed", "seed": seed, "clause": "hash-seed-dependence", "desc": h["desc"], "files": h["files"]}
+        if (h["clause"], h["desc"]["family"]) in solo_seen:
+            continue
+        solo_seen.add((h["clause"], h["desc"]["family"]))
+        doc = {"kind": "hashseed", "seed": seed, "clause": h["clause"], "desc": h["desc"], "files": h["files"]}
         path = K.write_replay(PROP, seed, len(replays), doc)
         replays.append(path)
-        print(f"violated clause: hash-seed-dependence: {h['desc']['id']} renders differently under PYTHONHASHSEED "
-              f"{REF_HASHSEEDS[0]} and {REF_HASHSEEDS[1]} in {h['files'][:5]}")
-        print(f"VIOLATION property={PROP} replay={path}")
+        if h["clause"] == "hash-seed-dependence":
+            out.append(f"violated clause: hash-seed-dependence: {h['desc']['id']} alone renders differently under PYTHONHASHSEED "
+                  f"{REF_HASHSEEDS[0]} and {REF_HASHSEEDS[1]} in {h['files'][:5]}")
+        else:
+            out.append(f"violated clause: repeated-render-differs: {h['desc']['id']} alone: render #{h['render']} repeats the previous "
+                  f"request with no edit in between but differs in {h['files'][:5]}")
+        out.append(f"VIOLATION property={PROP} replay={path}")
         exit_code = K.EXIT_VIOLATION
     for v in sorted(viols, key=lambda x: x["index"]):
         vi = v["violation"]
@@ -577,10 +639,10 @@ def report(viols, hs_viol, lib_by_id, lib, refs, seed, scratch):
         seen.add(sig)
         t = minimise(v["trace"], vi["clause"], vi["desc"], lib_by_id, refs, rundir)
         if t is None:
-            print(f"HARNESS: violation {sig} (run {v['index']}) did not reproduce from its recorded trace", file=sys.stderr)
+            out.append(f"HARNESS: violation {sig} (run {v['index']}) did not reproduce from its recorded trace")
             exit_code = K.EXIT_HARNESS
             continue
-        r = execute(t, lib_by_id, refs, rundir)
+        r = execute_isolated(t, lib_by_id, refs, rundir)
         vv = r["violation"]
         # counterfactual attribution to open known findings
         fid = None
@@ -597,14 +659,14 @@ def report(viols, hs_viol, lib_by_id, lib, refs, seed, scratch):
                "trace": t, "descriptions": [lib_by_id[i] for i in ids]}
         path = K.write_replay(PROP, seed, len(replays), doc)
         replays.append(path)
-        print(f"violated clause: {vi['clause']} (run index {v['index']}, victim family {fam}): {vv['detail'][:500]}")
-        print(f"  minimised schedule: sessions={t['sessions']} events=" + json.dumps(t["events"])[:700])
-        print(f"VIOLATION property={PROP} replay={path}")
+        out.append(f"violated clause: {vi['clause']} (run index {v['index']}, victim family {fam}): {vv['detail'][:500]}")
+        out.append(f"  minimised schedule: sessions={t['sessions']} events=" + json.dumps(t["events"])[:700])
+        out.append(f"VIOLATION property={PROP} replay={path}")
         if exit_code == K.EXIT_OK:
             exit_code = K.EXIT_VIOLATION
     lines = [f"KNOWN-FINDING: property={PROP} {e['what']} [{fid}; {n} minimised schedules in this run]"
              for fid, (e, n) in sorted(known_hit.items())]
-    return exit_code, replays, lines
+    return exit_code, replays, lines, out
 
 
 def counterfactual_clean(trace, channel, lib_by_id, refs, rundir, vi):
@@ -613,5 +675,5 @@ def counterfactual_clean(trace, channel, lib_by_id, refs, rundir, vi):
     fn = channels().get(channel)
     if fn is None:
         return False
-    r = execute(trace, lib_by_id, refs, rundir, neutralise=(vi["desc"], fn))
+    r = execute_isolated(trace, lib_by_id, refs, rundir, neutralise=(vi["desc"], channel))
     return r["violation"] is None
